@@ -805,6 +805,19 @@ def saveAtZ (mem : Bool) (f : Bytes) (atoms : List PAtom) (parents : List PAtom)
 
 def ilstPath : List Bytes := [nMoov, nUdta, nMeta, nIlst]
 
+/-- what `__save_existing` writes over the region: `ilst_data + Atom.render(b"free", …)`, the padding from
+`PaddingInfo(length - (len(ilst_data) + 8), content_size)` -/
+def existingData (ilstData : Bytes) (pad : PadChoice) (contentSize length : Nat) : Bytes :=
+  ilstData ++ freeAtom (getPadding pad ((length : Int) - ((ilstData.length + 8 : Nat) : Int)) contentSize)
+
+/-- what `__save_new` inserts: `meta(\0\0\0\0 + hdlr + ilst_data + free)`, inside a new `udta` when the path ends at `moov` -/
+def newData (ilstData : Bytes) (pad : PadChoice) (contentSize : Nat) (parents : List PAtom) : Bytes :=
+  let metaData := zeros 4 ++ hdlrAtom ++ ilstData
+  let metaAtom := renderAtom nMeta (metaData ++ freeAtom (getPadding pad (-(metaData.length : Int)) contentSize))
+  match parents.getLast? with
+  | some p => if p.name ≠ nUdta then renderAtom nUdta metaAtom else metaAtom
+  | none => metaAtom
+
 /-- `MP4Tags.save(filething, padding)` from `Atoms(fileobj)` on, `ilstData = Atom.render(b"ilst", b"".join(values))`:
 `__save` → `__save_existing` (the path `moov.udta.meta.ilst` exists) or `__save_new`.
 Result: the exception that ended the save (if any) and the bytes in the file. -/
@@ -819,21 +832,12 @@ def saveTags (mem : Bool) (f ilstData : Bytes) (pad : PadChoice) : Option PyErr 
         -- __save_existing
         if f.length < R.offset + R.length then (some .mutagen, f)     -- content_size < 0: error("… beyond the file")
         else
-          let paddingSize : Int := (R.length : Int) - ((ilstData.length + 8 : Nat) : Int)
-          let newPadding := getPadding pad paddingSize (f.length - (R.offset + R.length))
-          saveAtZ mem f atoms R.parents R.offset R.length (ilstData ++ freeAtom newPadding)
+          saveAtZ mem f atoms R.parents R.offset R.length
+            (existingData ilstData pad (f.length - (R.offset + R.length)) R.length)
       else
         -- __save_new
         if f.length < R.offset then (some .value, f)          -- insert_bytes: movesize < 0 (whatever the padding callback said)
-        else
-          let metaData := zeros 4 ++ hdlrAtom ++ ilstData
-          let newPadding := getPadding pad (-(metaData.length : Int)) (f.length - R.offset)
-          let metaAtom := renderAtom nMeta (metaData ++ freeAtom newPadding)
-          let data :=
-            match R.parents.getLast? with
-            | some p => if p.name ≠ nUdta then renderAtom nUdta metaAtom else metaAtom
-            | none => metaAtom
-          saveAtZ mem f atoms R.parents R.offset 0 data
+        else saveAtZ mem f atoms R.parents R.offset 0 (newData ilstData pad (f.length - R.offset) R.parents)
 
 /-- what `MP4.load` does with the atom tree: `Atoms(fileobj)` (AtomError → `error`), `MP4Info.load` needs a
 top-level `moov` ("not a MP4 file"), `MP4Tags._can_load`.  Answer: has the object tags (`tags is not None`).
